@@ -72,6 +72,9 @@ func build(e elem, prevTag uint16, newfid uint32) ([]byte, *refcodec.Msg) {
 		m = rawpeer.Tflush(e.tag, 999)
 	case "flush-prev":
 		m = rawpeer.Tflush(e.tag, prevTag)
+	case "flush-first":
+		// names the FIRST request of the batch (tag 1 in every batch that uses it)
+		m = rawpeer.Tflush(e.tag, 1)
 	case "badtype":
 		// well delimited frame of an unknown type
 		b := []byte{11, 0, 0, 0, 200, byte(e.tag), byte(e.tag >> 8), 1, 2, 3, 4}
@@ -290,12 +293,16 @@ func inflightDup() *fw.Scenario {
 type conc struct {
 	A, B  string
 	Other bool // B on another connection
+	Flush bool `json:",omitempty"` // a Tflush naming A is sent between A and B (it has to wait for A; B has not)
 }
 
 func concurrency(c conc) *fw.Scenario {
 	name := fmt.Sprintf("concurrent-%s-gated-vs-%s", c.A, c.B)
 	if c.Other {
 		name += "-otherconn"
+	}
+	if c.Flush {
+		name += "-with-flush-of-the-gated-request-pending"
 	}
 	return &fw.Scenario{Name: name, Params: c, DeadlockOK: true, New: func() (func(), func(*vsched.Execution) ([]fw.Issue, string)) {
 		var s, s2 *sess.Sess
@@ -379,6 +386,9 @@ func concurrency(c conc) *fw.Scenario {
 			}
 			vsched.BeginExplore()
 			s.Peer.Send(A)
+			if c.Flush {
+				s.Peer.Send(rawpeer.Tflush(52, 50))
+			}
 			bs.Peer.Send(B)
 			// B's reply must arrive while A is held.
 			// (When A and B are the same kind of call on the same handle either
@@ -386,6 +396,9 @@ func concurrency(c conc) *fw.Scenario {
 			bs.Peer.Recv()
 			gate.Open()
 			s.Peer.Recv()
+			if c.Flush {
+				s.Peer.Recv()
+			}
 			vsched.EndExplore()
 			s.Hangup()
 			s.WaitDone()
@@ -480,14 +493,16 @@ func run(ctx *fw.Ctx, rep *fw.Report) {
 	}
 	scs = append(scs, reuse(5), reuse(0xffff), inflightDup(), halfClose(1), halfClose(2))
 	for _, c := range []conc{
-		{"read", "getattr-root", false}, {"read", "walk-d", false}, {"read", "read", false}, {"read", "clunk-e", false}, {"read", "statfs", false}, {"read", "flush-idle", false},
-		{"getattr-d", "walk-d", false}, {"walk-d", "getattr-d", false}, {"mkdir-e", "getattr-d", false}, {"mkdir-e", "read", false},
-		{"read", "getattr-root", true}, {"read", "read", true}, {"mkdir-e", "walk-d", true}, {"walk-d", "walk-d", true},
+		{"read", "getattr-root", false, false}, {"read", "walk-d", false, false}, {"read", "read", false, false}, {"read", "clunk-e", false, false}, {"read", "statfs", false, false}, {"read", "flush-idle", false, false},
+		{"getattr-d", "walk-d", false, false}, {"walk-d", "getattr-d", false, false}, {"mkdir-e", "getattr-d", false, false}, {"mkdir-e", "read", false, false},
+		{"read", "getattr-root", true, false}, {"read", "read", true, false}, {"mkdir-e", "walk-d", true, false}, {"walk-d", "walk-d", true, false},
 		// read-class calls on ONE path do not order each other (WriteAt, FSync, Readdir and Open are read-class too)
-		{"write", "read", false}, {"write", "getattr-f", false}, {"write", "write-f", false}, {"write", "read", true}, {"fsync", "read", false}, {"fsync", "write-f", false},
-		{"clunk-f7", "getattr-root", false}, {"clunk-f7", "read", false}, {"clunk-f7", "walk-d", false}, {"clunk-f7", "read", true},
-		{"lock-f", "setattr-f5", false}, {"lock-f", "renameat-d", false}, {"lock-f", "renameat-d", true}, {"lock-f", "read", false},
-		{"readdir-e", "walk-e", false}, {"readdir-e", "walk-e", true}, {"lopen-f", "read", false}, {"lopen-f", "getattr-f", true}, {"read", "write-f", false},
+		{"write", "read", false, false}, {"write", "getattr-f", false, false}, {"write", "write-f", false, false}, {"write", "read", true, false}, {"fsync", "read", false, false}, {"fsync", "write-f", false, false},
+		{"clunk-f7", "getattr-root", false, false}, {"clunk-f7", "read", false, false}, {"clunk-f7", "walk-d", false, false}, {"clunk-f7", "read", true, false},
+		{"lock-f", "setattr-f5", false, false}, {"lock-f", "renameat-d", false, false}, {"lock-f", "renameat-d", true, false}, {"lock-f", "read", false, false},
+		{"readdir-e", "walk-e", false, false}, {"readdir-e", "walk-e", true, false}, {"lopen-f", "read", false, false}, {"lopen-f", "getattr-f", true, false}, {"read", "write-f", false, false},
+		// a flush that has to wait for the held request holds up nobody else
+		{A: "read", B: "getattr-root", Flush: true}, {A: "read", B: "getattr-root", Other: true, Flush: true}, {A: "mkdir-e", B: "read", Flush: true},
 	} {
 		scs = append(scs, concurrency(c))
 	}
@@ -507,6 +522,8 @@ func run(ctx *fw.Ctx, rep *fw.Report) {
 	} else {
 		scs = append(scs, batch(params{Kinds: []string{"read", "flush-prev", "getattr"}, Tags: []uint16{1, 2, 3}}))
 	}
+	// two flushes naming the SAME request in flight: each of them is owed its own Rflush
+	scs = append(scs, batch(params{Kinds: []string{"read", "flush-first", "flush-first"}, Tags: []uint16{1, 2, 3}}))
 	budget := 60 * time.Second // the largest quick scenario (3 requests in flight incl. a flush) needs ~35 s
 	if !ctx.Quick() {
 		budget = 4 * time.Minute
